@@ -114,6 +114,80 @@ static bool scaffoldMatch(const std::string& d, const std::string& n) {
 	return StateMachine::nameMatch(d, n);
 }
 
+// ---- lua mode (C16) ----------------------------------------------------------------------
+// vectors: "<way> <token stream>" (token stream as in json_replay: A V hex | A I hex | L n .. | M n K hex ..)
+//   way = assign | init | event ; read back with evalAsData
+// output: "L <n> ok" | "L <n> NE <json of what came back>" | "L <n> ERR"
+// then the protected names: "PN <name> raised=<0|1> unchanged=<0|1>"
+static std::string unhexS(const std::string& h) {
+	if (h == "-") return "";
+	std::string o;
+	for (size_t i = 0; i + 1 < h.size(); i += 2) o += (char)strtol(h.substr(i, 2).c_str(), NULL, 16);
+	return o;
+}
+static uscxml::Data buildData(std::istringstream& in) {
+	std::string tok;
+	in >> tok;
+	if (tok == "A") {
+		std::string ty, h;
+		in >> ty >> h;
+		return uscxml::Data(unhexS(h), ty == "V" ? uscxml::Data::VERBATIM : uscxml::Data::INTERPRETED);
+	}
+	uscxml::Data d;
+	int n = 0;
+	in >> n;
+	if (tok == "L") { for (int i = 0; i < n; i++) d.array.push_back(buildData(in)); }
+	else { for (int i = 0; i < n; i++) { std::string k, h; in >> k >> h; d.compound[unhexS(h)] = buildData(in); } }
+	return d;
+}
+static const char* LUA_DOC =
+    "<scxml xmlns=\"http://www.w3.org/2005/07/scxml\" version=\"1.0\" datamodel=\"lua\">"
+    "<datamodel><data id=\"v\" expr=\"0\"/><data id=\"w\" expr=\"0\"/></datamodel><state id=\"s\"/></scxml>";
+
+static int luaMode(const char* file) {
+	setenv("USCXML_NOCACHE_FILES", "YES", 1);
+	std::ifstream in(file);
+	std::string line;
+	int saved = dup(2);
+	FILE* devnull = fopen("/dev/null", "w");
+	if (devnull) dup2(fileno(devnull), 2);
+	static uscxml::Interpreter interp = uscxml::Interpreter::fromXML(LUA_DOC, "file:///verif/lua.scxml");
+	for (int i = 0; i < 6; i++) interp.step(0);
+	uscxml::DataModel dm = interp.getActionLanguage()->dataModel;
+	long n = 0;
+	while (std::getline(in, line)) {
+		n++;
+		std::istringstream is(line);
+		std::string way;
+		is >> way;
+		uscxml::Data d = buildData(is);
+		try {
+			uscxml::Data back;
+			std::map<std::string, std::string> noattr;
+			if (way == "assign") { dm.assign("v", d, noattr); back = dm.evalAsData("v"); }
+			else if (way == "init") { dm.init("w", d, noattr); back = dm.evalAsData("w"); }
+			else { uscxml::Event e("x.y", uscxml::Event::EXTERNAL); e.data = d; dm.setEvent(e); back = dm.evalAsData("_event.data"); }
+			if (back == d) printf("L %ld ok\n", n);
+			else printf("L %ld NE %s\n", n, uscxml::Data::toJSON(back).c_str());
+		} catch (uscxml::Event e) { printf("L %ld ERR\n", n); } catch (...) { printf("L %ld EXC\n", n); }
+		fflush(stdout);
+	}
+	const char* names[] = {"_event", "_sessionid", "_name", "_ioprocessors", "_invokers"};
+	for (int i = 0; i < 5; i++) {
+		std::string before, after;
+		bool raised = false;
+		std::map<std::string, std::string> noattr;
+		try { before = uscxml::Data::toJSON(dm.evalAsData(names[i])); } catch (...) { before = "?"; }
+		try { dm.assign(names[i], uscxml::Data("otherValue", uscxml::Data::VERBATIM), noattr); } catch (uscxml::Event e) { raised = (e.name == "error.execution"); } catch (...) {}
+		try { after = uscxml::Data::toJSON(dm.evalAsData(names[i])); } catch (...) { after = "??"; }
+		printf("PN %s raised=%d unchanged=%d\n", names[i], raised ? 1 : 0, before == after ? 1 : 0);
+	}
+	printf("DONE %ld\n", n);
+	fflush(stdout);
+	dup2(saved, 2);
+	_exit(0);
+}
+
 // ---- foreign mode (C14) ------------------------------------------------------------------
 // every document is run to its first idle point and serialized; the text is then offered to a
 // fresh interpreter of every document: own text must be accepted, a foreign one rejected.
@@ -163,6 +237,7 @@ int main(int argc, char** argv) {
 	std::string mode = argv[1];
 	if (mode == "promela") return promelaMode(argv[2]);
 	if (mode == "foreign") return foreignMode(argc, argv);
+	if (mode == "lua") return luaMode(argv[2]);
 	std::ifstream in(argv[2]);
 	if (!in) { perror("open"); return 2; }
 	long n = 0, diffs = 0;
